@@ -1,3 +1,4 @@
+import CaresModel.Generated.DsaConsts
 /-
 Model of src/lib/dsa/ares_array.c (ares_array_t): a dynamic array with a moving start offset.
 
@@ -52,7 +53,8 @@ def pow2ceilAux : Nat → Nat → Nat → Nat
 
 def pow2ceil (n : Nat) : Nat := pow2ceilAux n 1 n
 
-def arrayMin : Nat := 4
+/-- ARES__ARRAY_MIN, regenerated from ares_array.c on every run -/
+def arrayMin : Nat := Cares.Generated.ARRAY_MIN
 
 /-- allocation size policy: power of two, at least ARES__ARRAY_MIN -/
 def roundSize (size : Nat) : Nat :=
